@@ -343,68 +343,8 @@ theorem decrst_single_ok {t t' : Terminal} {m : DecMode} (hi : TInv t = true)
 
 theorem defaultCtx_eq : ({} : SavedCtx) = defaultCtx := rfl
 
-/-- the per-step specification holds for every function of the model -/
-theorem step_ok {t t' : Terminal} {f : Function} (hi : TInv t = true) (h : t.execute f = some t') :
-    stepOK t f t' = true := by
-  by_cases ht : touchesCtx f = false
-  · -- clause (3) (and the restores, which keep both contexts)
-    have hk := ctxKept_of (frame hi ht h)
-    cases f <;> simp only [touchesCtx, Bool.true_eq_false] at ht
-    case decrc =>
-      simp only [Terminal.execute] at h; cases h
-      simp [stepOK, restoredFrom_restore, hk]
-      simp [Terminal.restoreCursor]
-    case scorc =>
-      simp only [Terminal.execute] at h; cases h
-      simp [stepOK, restoredFrom_restore, hk]
-      simp [Terminal.restoreCursor]
-    case decset ms =>
-      cases ms with
-      | nil => simp [stepOK, hk]
-      | cons m rest =>
-        cases rest with
-        | nil => simp only [Terminal.execute] at h; exact decset_single_ok (foldM_single h)
-        | cons _ _ => simp [stepOK, hk]
-    case decrst ms =>
-      cases ms with
-      | nil => simp [stepOK, hk]
-      | cons m rest =>
-        cases rest with
-        | nil => simp only [Terminal.execute] at h; exact decrst_single_ok hi (foldM_single h)
-        | cons _ _ => simp [stepOK, hk]
-    all_goals simp [stepOK, hk]
-  · replace ht : touchesCtx f = true := by simpa using ht
-    cases f <;> simp only [touchesCtx, Bool.false_eq_true] at ht
-    case decsc =>
-      simp only [Terminal.execute] at h
-      have := saveCursor_eq h; subst this
-      simp [stepOK, sameVisible]
-    case scosc =>
-      simp only [Terminal.execute] at h
-      have := saveCursor_eq h; subst this
-      simp [stepOK, sameVisible]
-    case decstr =>
-      simp only [Terminal.execute, Terminal.softReset] at h
-      obtain ⟨r1, _, rfl⟩ := Option.map_eq_some_iff.mp h
-      simp [stepOK, defaultCtx_eq]
-    case ris =>
-      simp only [Terminal.execute, Terminal.hardReset] at h
-      obtain ⟨r1, _, rfl⟩ := Option.map_eq_some_iff.mp h
-      simp [stepOK, defaultCtx_eq]
-    case decset ms =>
-      cases ms with
-      | nil => simp at ht
-      | cons m rest =>
-        cases rest with
-        | nil => simp only [Terminal.execute] at h; exact decset_single_ok (foldM_single h)
-        | cons _ _ => simp only [stepOK, touchesCtx, ht, Bool.true_or]
-    case decrst ms =>
-      cases ms with
-      | nil => simp at ht
-      | cons m rest =>
-        cases rest with
-        | nil => simp only [Terminal.execute] at h; exact decrst_single_ok hi (foldM_single h)
-        | cons _ _ => simp only [stepOK, touchesCtx, ht, Bool.true_or]
+/- `step_ok` (the per-step specification holds for every function of the model) is in
+   Avt/Lemmas/C17Multi.lean, after the lemmas about lists of DEC modes. -/
 
 /-- the first two statements of `Terminal.resize` -/
 def resizeTabs (t : Terminal) (cols : Nat) : Terminal :=
